@@ -32,7 +32,7 @@ Uninflected == <<"bison", "sheep", "news", "series", "species", "equipment", "in
                  "people", "rice", "Maltese", "sea-bass", "chassis", "multimedia">>
 
 Styles == {"lower", "UPPER", "Title"}
-Prefixes == {"", "old", "x9", "Größe", "a b"}
+Prefixes == {"", "old", "x9", "Größe", "a b", "<NL>"}      \* <NL>: a prefix that contains a line break (concretised by the harness)
 Boundaries == {" ", "-", ".", "/", "--", " - "}
 
 VARIABLE cs     \* the sequential case under test
